@@ -17,7 +17,7 @@ struct E3 : Engine {
 	J generate(uint64_t seed,const std::string &prop,bool thorough) override {
 		simk::Rng r; r.seed(seed);
 		J p = J::obj(); p["engine"] = "E3"; p["prop"] = prop;
-		int nthreads = 2 + r.below(thorough ? 7 : 4); int nkeys = 1 + r.below(3); int ntrig = r.below(3); p["coll"] = (int)r.below(2); if(p.geti("coll")) nkeys = 2 + r.below(3);   // coll: the keys collide in the cache's hash table
+		int nthreads = 2 + r.below(thorough ? 7 : 4); int nkeys = 1 + r.below(3); int ntrig = r.below(3); p["coll"] = (int)r.below(2); if(p.geti("coll")) nkeys = 2 + r.below(4);   // coll: the keys collide in the cache's hash table
 		static const int limits[] = {0,0,0,1,2,4}; p["limit"] = limits[r.below(6)];
 		p["sched_seed"] = (unsigned long long)(r.next() >> 8); p["strategy"] = (int)r.below(3); p["pct_depth"] = 1 + (int)r.below(3); p["pct_len"] = 20 + (int)r.below(400);
 		int budget = 24 + (thorough ? 8 : 0);   // total ops across threads stays tractable for the linearizability search
@@ -42,8 +42,8 @@ struct E3 : Engine {
 
 	// "k0", "j@", "iP", "h`" have the same cppcms string_hash (16*c1+c2 = 1760): in every table size they share one bucket chain
 	static bool &colliding(){ static bool v = false; return v; }
-	static std::string key_name(int k){ k = ((k % 100) + 100) % 100; static const char *coll[] = {"k0","j@","iP","h`"}; if(colliding() && k < 4) return coll[k]; return "k" + std::to_string(k); }
-	static std::string trig_name(int t){ t = ((t % 1000) + 1000) % 1000; return t >= 100 ? key_name(t-100) : "t" + std::to_string(t); }
+	static std::string key_name(int k){ k = ((k % 100) + 100) % 100; static const char *coll[] = {"k0","j@","iP","h`","k0_xybkckgp"}; if(colliding() && k < 5) return coll[k];   // the fifth has "k0" as a proper prefix and the same hash return "k" + std::to_string(k); }
+	static std::string trig_name(int t){ t = ((t % 1000) + 1000) % 1000; if(colliding() && t == 1) return "t0_cybbclep"; return t >= 100 ? key_name(t-100) : "t" + std::to_string(t); }
 
 	RunResult run(const J &plan) override {
 		RunResult res; colliding() = plan.geti("coll") != 0;
